@@ -44,6 +44,7 @@ def plan(tier, seed):
     for i, (n, blk) in enumerate(fault_sets):
         for crc in (True, False):
             shards.append({"kind": "fault", "n": n, "blk": blk, "crc": crc, "size_ind": (i + int(crc)) % 2 == 0, "cs": seed * 100 + 50 + i})
+    shards.append({"kind": "fault", "n": 150, "blk": 7, "crc": True, "size_ind": True, "zeros": True, "cs": seed * 100 + 90})
     return shards
 
 
@@ -69,10 +70,21 @@ def do_block_upload(rig, c):
                         break
                     out += chunk
             return bytes(out)
+        if style == "rawinto":
+            rng = random.Random(repr(("c13reads", c.get("seed"))))
+            out = bytearray()
+            with sdo.open(c["mux"][0], c["mux"][1], "rb", buffering=0, **kw) as fp:
+                for _ in range(200000):
+                    buf = bytearray(rng.randint(1, 9))
+                    k = fp.readinto(buf)
+                    if not k:
+                        break
+                    out += buf[:k]
+            return bytes(out)
         if style == "chunks":
             rng = random.Random(repr(("c13reads", c.get("seed"))))
             out = bytearray()
-            with sdo.open(c["mux"][0], c["mux"][1], "rb", buffering=rng.choice([8, 64, 1024]), **kw) as fp:
+            with sdo.open(c["mux"][0], c["mux"][1], "rb", buffering=rng.choice([3, 5, 8, 64, 1024]), **kw) as fp:
                 for _ in range(100000):
                     chunk = fp.read(rng.randint(1, 50))
                     if not chunk:
@@ -98,7 +110,7 @@ def run_undisturbed(ctx, desc):
         for blk in (127, 1, 2, 7, 64, rng.randint(3, 126)):
             for crc_req, crc_sup in ((True, True), (False, True), (True, False)):
                 c = {"kind": "undisturbed", "n": n, "blk": blk, "crc": crc_req, "crc_support": crc_sup, "size_ind": rng.random() < 0.6,
-                     "style": rng.choice(["all", "all", "raw", "chunks"]), "seed": rng.randint(0, 1 << 30),
+                     "style": rng.choice(["all", "raw", "chunks", "chunks", "rawinto"]), "seed": rng.randint(0, 1 << 30),
                      "mux": [rng.choice([0x1F50, 0x2000, 0xFFFF]), rng.choice([0, 1, 255])]}
                 run_undisturbed_case(ctx, c)
 
@@ -135,7 +147,8 @@ def run_faults(ctx, desc):
     nseg = -(-n // 7)
     c0 = {"n": n, "blk": blk, "crc": crc, "crc_support": True, "mux": [0x1F50, 1], "seed": desc["cs"], "style": "all",
           "size_ind": desc.get("size_ind", True)}
-    value = payload(n, c0["seed"])
+    value = payload(n, c0["seed"]) if not desc.get("zeros") else bytes(n)
+    c0["zeros"] = bool(desc.get("zeros"))
 
     def seg_pred(rig):
         return lambda f: f.src == "refserver" and f.can_id == rig.tx and rig.server.state == "bul_data"
@@ -195,7 +208,8 @@ def run_faults(ctx, desc):
         c = dict(c0, kind="seqno-corrupted", k=k)
         ctx.case((c["kind"], lenclass(n), blk, crc, posclass(k)))
         one(c, lambda rig, k=k: faults.OneShot(seg_pred(rig), k, faults.flip_bit(0, rng.randint(0, 6))))
-    for kind, act in (("wrong-crc", lambda f: [f.replace(data=bytes([f.data[0], f.data[1] ^ 0x01]) + f.data[2:])]),
+    for kind, act in (("wrong-crc-zero", lambda f: [f.replace(data=bytes([f.data[0], 0, 0]) + f.data[3:])] if f.data[1:3] != b"\x00\x00" else [f.replace(data=bytes([f.data[0], 1, 0]) + f.data[3:])]),
+                      ("wrong-crc", lambda f: [f.replace(data=bytes([f.data[0], f.data[1] ^ 0x01]) + f.data[2:])]),
                       ("wrong-crc-hi", lambda f: [f.replace(data=f.data[:2] + bytes([f.data[2] ^ 0x80]) + f.data[3:])]),
                       ("end-wrong-specifier", lambda f: [f.replace(data=bytes([0x41 | (f.data[0] & 0x1C)]) + f.data[1:])]),
                       ("end-wrong-subcommand", lambda f: [f.replace(data=bytes([f.data[0] & 0xFC | 0x02]) + f.data[1:])]),
@@ -223,4 +237,5 @@ def replay(ctx, case):
     if case["kind"] == "undisturbed":
         run_undisturbed_case(ctx, case)
     else:
-        run_faults(ctx, {"n": case["n"], "blk": case["blk"], "crc": case["crc"], "cs": case["seed"], "size_ind": case.get("size_ind", True)})
+        run_faults(ctx, {"n": case["n"], "blk": case["blk"], "crc": case["crc"], "cs": case["seed"], "size_ind": case.get("size_ind", True),
+                         "zeros": case.get("zeros", False)})
